@@ -294,12 +294,12 @@ func c01Class(diffs []string) string { return "" }
 
 // an IRI anywhere in the value (one level of list / property is enough for the probes) that the decoder model's asIRI
 // does not speak about: a quote, a backslash or a byte below 0x20 (Value.String() re-escapes the text before asIRI
-// looks at it), userinfo or an IP literal (outside the net/url model of Model/UrlU.v).  Bytes >= 0x80 and
-// percent-escapes are inside the model since the URL grammar was widened.
+// looks at it).  Bytes >= 0x80, percent-escapes, userinfo and IP literals are inside the model since the URL grammar
+// was widened (Model/UrlU.v).
 func c01OutsideURLGrammar(it ap.Item) bool {
 	bad := func(s string) bool {
 		for i := 0; i < len(s); i++ {
-			if s[i] < 0x20 || s[i] == '"' || s[i] == '\\' || s[i] == '@' || s[i] == '[' {
+			if s[i] < 0x20 || s[i] == '"' || s[i] == '\\' {
 				return true
 			}
 		}
